@@ -707,7 +707,7 @@ func (x *Exec) evalClauseConcrete(t *harnessTarget, clause *SExpr, in map[string
 	defer func() { recover() }()
 	st := &State{vars: map[types.Object]Value{}, boxed: map[types.Object]PtrV{}, heap: map[string]*Term{}, ghost: map[string]Value{}}
 	st.now = IntLit(2_000_000_000)
-	st.alloc = ConstArr(ArrOf(SBool), TFalse)
+	st.alloc = IntLit(0)
 	env := &SpecEnv{x: x, st: st, old: st, vars: map[string]Value{}, bound: map[string]Value{}, pkgPath: t.pkg.PkgPath}
 	for k, v := range in {
 		env.vars[k] = v
